@@ -149,7 +149,7 @@ def _edit_cases(tier, rng):
                 out.add(f[:i] + p + f[i:])
                 if i < len(f):
                     out.add(f[:i] + p + f[i + 1:])
-    n = 3000 if tier == 'quick' else 60000
+    n = 3000 if tier == 'quick' else 300000
     alphabet = ''.join(chr(c) for c in range(32, 127)) + '\t\n'
     for _ in range(n):
         out.add('=' + ''.join(rng.choice(alphabet) for _ in range(rng.randrange(0, 12))))
